@@ -46,7 +46,7 @@ while IFS=$'\t' read -r name expect desc; do
 done < "$HERE/tools/mutants/INDEX.tsv"
 for d in "$HERE"/seeded/*/; do
   [ -f "$d/patch.diff" ] || continue
-  id="$(basename "$d")"; expect="$(python3 -c "import json,sys;print(json.load(open('$d/meta.json'))['property'])" 2>/dev/null)"
+  id="$(basename "$d")"; expect="$(python3 -c "import json,sys;m=json.load(open('$d/meta.json'));print(' '.join([m['property']]+m.get('also_run',[])))" 2>/dev/null)"
   run_one "seeded/$id" "$expect" "$d/patch.diff" 0 "sub-agent change, see seeded/$id/meta.json"
 done
 if [ ${#FILTER[@]} -eq 0 ]; then mv "$RES.new" "$RES"; else cat "$RES.new" >> "$RES"; rm -f "$RES.new"; fi
